@@ -1152,6 +1152,14 @@ func callBuiltin(caller *frame, callpos token.Pos, fn *ssa.Builtin, args []value
 		return &caller.defers
 
 	// package unsafe
+	case "Sizeof":
+		t := fn.Type().(*types.Signature).Params().At(0).Type()
+		return uintptr(caller.i.sizes.Sizeof(t))
+	case "Alignof":
+		t := fn.Type().(*types.Signature).Params().At(0).Type()
+		return uintptr(caller.i.sizes.Alignof(t))
+	case "Add":
+		panic(unsupported("unsafe.Add"))
 	case "SliceData":
 		return sliceData{args[0].([]value)}
 	case "StringData":
